@@ -15,6 +15,7 @@ type opD struct {
 	P    int    `json:"p,omitempty"`    // parameter index (u, b, g)
 	V    int    `json:"v,omitempty"`    // value code (u)
 	Prod int    `json:"prod,omitempty"` // producer index (a)
+	Enc  string `json:"enc,omitempty"`  // image updates: png | png-rgba | png-best | jpeg
 }
 
 type respD struct {
